@@ -37,9 +37,14 @@ func H_vals(p []int) {
 	wf, ls := wfls(out)
 	vAssert(wf, "C01/wf")
 	vAssert(ls, "C03/lineSafe")
+	if vProp("C03") {
+		vAssert(linesWF(out), "C03/each-line-wf")
+	}
 	if wf {
 		// per-line redaction == whole redaction (C03, second sentence)
-		vAssert(bytesEq(redactRef(out), redactLines(out)), "C03/per-line-redact")
+		if vProp("C03") {
+			vAssert(bytesEq(redactRef(out), redactLines(out)), "C03/per-line-redact")
+		}
 	}
 	vCover(n > 0, "symbolic-leaf")
 }
